@@ -297,8 +297,7 @@ def run_check(prop, tier):
             rp = os.path.join(VERIF_ROOT, e["replay"])
             try:
                 run, viol = sim.execute(read_replay(rp)["trace"], collect=False)
-                reproduced = (viol is not None and viol.clause == e.get("clause")
-                              and known.match(prop, viol.clause, sim.signature(read_replay(rp)["trace"], viol), [e]) is not None)
+                reproduced = (viol is not None and known.match(prop, viol.clause, sim.signature(read_replay(rp)["trace"], viol), [e]) is not None)
             except Inconclusive:
                 reproduced = False
         if eid in reported:
